@@ -12,6 +12,9 @@
 #include <sstream>
 #include <algorithm>
 #include <tuple>
+#include <memory>
+#include <vector>
+#include <string>
 #define private public
 #include "angular.hpp"
 #undef private
@@ -22,6 +25,27 @@ int main(int argc, char** argv) {
   if (argc < 2) return 2;
   std::string mode = argv[1];
   initFactorials();
+  if (mode == "seq") {
+    // several engines constructed one after the other in ONE process: "seq outprefix LB LE LB LE ..."; the tables of the i-th engine
+    // go to <outprefix>_<i>.bin in the format of mode "tables" (they must not depend on what was constructed before)
+    std::string pre = argv[2];
+    std::vector<std::unique_ptr<AngularIntegral>> keep;
+    for (int a = 3, i = 0; a + 1 < argc; a += 2, i++) {
+      int LB = std::atoi(argv[a]), LE = std::atoi(argv[a + 1]);
+      keep.emplace_back(new AngularIntegral(LB, LE)); AngularIntegral& A = *keep.back(); A.compute();
+      FILE* f = std::fopen((pre + "_" + std::to_string(i) + ".bin").c_str(), "wb");
+      int hdr[4] = {A.wDim, A.maxL, LB, LE}; std::fwrite(hdr, sizeof(int), 4, f);
+      for (int k = 0; k <= A.wDim; k++) for (int l = 0; l <= A.wDim; l++) for (int m = 0; m <= A.wDim; m++)
+        for (int lam = 0; lam <= A.maxL; lam++) for (int mu = -lam; mu <= lam; mu++) { double v = A.getIntegral(k, l, m, lam, mu); std::fwrite(&v, 8, 1, f); }
+      int ld = LB + LE;
+      for (int k = 0; k <= LB; k++) for (int l = 0; l <= LB; l++) for (int m = 0; m <= LB; m++)
+        for (int lam = 0; lam <= ld; lam++) for (int mu = -lam; mu <= lam; mu++)
+          for (int rho = 0; rho <= ld; rho++) for (int sg = -rho; sg <= rho; sg++) { double v = A.getIntegral(k, l, m, lam, mu, rho, sg); std::fwrite(&v, 8, 1, f); }
+      std::fclose(f);
+      if (i % 2 == 1) keep.erase(keep.begin());      // some engines are destroyed along the way, some stay alive
+    }
+    return 0;
+  }
   if (mode == "tables" || mode == "dims") {
     int LB = std::atoi(argv[2]), LE = std::atoi(argv[3]);
     AngularIntegral A(LB, LE); A.compute();
